@@ -175,6 +175,10 @@ func pkcs5Padding(cipherText []byte, blockSize int) []byte {
 
 func pkcs5UnPadding(src []byte, blockSize int) ([]byte, error) {
 	length := len(src)
+	if length == 0 {
+		return nil, ErrPaddingSize
+	}
+
 	unPadding := int(src[length-1])
 	if unPadding >= length || unPadding > blockSize {
 		return nil, ErrPaddingSize
